@@ -1,11 +1,12 @@
-(* Utf/LoopBridgeConvert32.v — utf16_convert_from_utf32(dest, utf32, size, validation) of include/st_utf_conv_priv.h, the
-   second pass of ST::utf32_to_utf16 (and of the wchar_t aliases), as TRANSLATED from the current headers (Gen/Leaf.v:
+(* Utf/LoopBridgeConvert32.v — utf16_convert_from_utf32 and utf8_convert_from_utf32 (dest, utf32, size, validation) of
+   include/st_utf_conv_priv.h, the second passes of ST::utf32_to_utf16 / utf32_to_utf8 (and of the wchar_t aliases, of
+   ST::string::from_utf32 ...), each as TRANSLATED from the current headers (Gen/Leaf.v:
    dest is a write-only cursor handed to the translated encoder write_utf16, whose stored units are appended) returns,
    for inputs of any length, every validation mode and every sufficient fuel, the conversion_error_t and stores exactly
    the units that the hand-written model pass Utf/Model.utf16_convert_from_utf32 returns and pushes (given room).  With
    utf16_measure_from_utf32 (Utf/LoopBridge.v) both passes of this conversion are tied by translation. *)
 From Coq Require Import NArith ZArith List Bool Lia ZifyBool ZifyNat ZifyN.
-From ST Require Import Base.Outcome Base.Units Base.Sweep Utf.Spec Utf.Model Gen.Leaf Utf.LoopBridge Utf.LoopBridgeExtract Utf.LoopBridgeWrite.
+From ST Require Import Base.Outcome Base.Units Base.Sweep Gen.Consts Utf.Spec Utf.Model Gen.Leaf Utf.LoopBridge Utf.LoopBridgeExtract Utf.LoopBridgeWrite.
 Import ListNotations.
 Local Open Scope Z_scope.
 Local Open Scope outcome_scope.
@@ -101,6 +102,106 @@ Proof.
     as (e & ws & Es & Em).
   exists e, ws. split; [exact Es|]. intros d Hd. fold (c16_body m). exact (Em d Hd).
 Qed.
+
+(* ---- utf8_convert_from_utf32 ---- *)
+Lemma write8_shape n : (n < 4294967296)%N ->
+  (exists ws, src_write_utf8 (Z.of_N n) = (ext_success, ws) /\ (length ws <= 4)%nat) \/
+  src_write_utf8 (Z.of_N n) = (ext_out_of_range, []).
+Proof.
+  intros Hn. rewrite src_write_utf8_eq.
+  destruct (z2b (b2z (wrapu 32 (Z.of_N n) <? wrapu 32 128))); [left; eexists; split; [reflexivity|cbn; lia]|].
+  destruct (z2b (b2z (wrapu 32 (Z.of_N n) <? wrapu 32 2048))); [left; eexists; split; [reflexivity|cbn; lia]|].
+  destruct (z2b (b2z (wrapu 32 (Z.of_N n) <? wrapu 32 65536))); [left; eexists; split; [reflexivity|cbn; lia]|].
+  destruct (z2b (b2z (wrapu 32 (Z.of_N n) <=? wrapu 32 1114111))); [left; eexists; split; [reflexivity|cbn; lia]|].
+  right. reflexivity.
+Qed.
+
+Definition subst8 : list Z := firstn (Z.to_nat ext_badchar_substitute_utf8_len) ext_arr_badchar_substitute_utf8.
+
+Lemma c8_loop_S f p a b v sp ep out : src_utf8_convert_from_utf32_loop1 (S f) p a b v sp ep out =
+  (if z2b (b2z (Z.ltb sp ep)) then
+     let '(r, w) := src_write_utf8 (p sp) in
+     if z2b (b2z (negb (Z.eqb r ext_success))) then
+       if z2b (b2z (Z.eqb v ext_check_validity)) then Some (r, out ++ w)
+       else src_utf8_convert_from_utf32_loop1 f p a b v (sp + 1) ep ((out ++ w) ++ subst8)
+     else src_utf8_convert_from_utf32_loop1 f p a b v (sp + 1) ep (out ++ w)
+   else Some (ext_success, out)).
+Proof. cbv beta iota zeta delta [src_utf8_convert_from_utf32_loop1 subst8]. destruct (src_write_utf8 (p sp)). reflexivity. Qed.
+
+Definition c8_body (m : vmode) := fun (s : list N) (d : dst) =>
+  ch <- rdu s 0 ;;
+  '(error, d') <- write_utf8 d ch ;;
+  if is_error error then on_error8 m error (skipn 1 s) d'
+  else Ok (Continue (skipn 1 s) d').
+
+(* the three substitute bytes, as the translated code stores them and as the model pushes them *)
+Lemma subst8_length : length subst8 = 3%nat. Proof. reflexivity. Qed.
+Lemma subst8_pushed free w : (3 <= free)%nat ->
+  push_all8 (free, w) badchar_substitute_utf8 = Ok ((free - length subst8)%nat, rev (map byte_of subst8) ++ w).
+Proof. intros H. destruct free as [|[|[|free]]]; try lia. rewrite subst8_length. cbn [Nat.sub]. rewrite Nat.sub_0_r. reflexivity. Qed.
+
+Theorem c8_loop_matches m v : (Z.eqb v ext_check_validity) = is_check m ->
+  forall s out i p a b fm fs, all_lt 4294967296 s = true -> shows Z.of_N p i s ->
+  (length s < fm)%nat -> (length s < fs)%nat ->
+  exists e ws, src_utf8_convert_from_utf32_loop1 fs p a b v i (i + Z.of_nat (length s)) out = Some (Z.of_N (cerr_code e), out ++ ws) /\
+    forall d : dst, (length ws <= fst d)%nat ->
+      walk (c8_body m) fm s d = Ok (e, ((fst d - length ws)%nat, rev (map byte_of ws) ++ snd d)).
+Proof.
+  intros Hv. induction s as [|c t IH]; intros out i p a b fm fs A R Hfm Hfs;
+    (destruct fm as [|fm]; [cbn in Hfm; lia|]); (destruct fs as [|fs]; [cbn in Hfs; lia|]).
+  - exists CSuccess, []. split.
+    + rewrite c8_loop_S. cbn [length]. replace (i <? i + Z.of_nat 0) with false by lia. cbn [b2z z2b Z.eqb negb].
+      rewrite app_nil_r. reflexivity.
+    + intros [free w] _. cbn [walk fst snd length map rev app]. repeat f_equal. lia.
+  - destruct (all_lt_cons _ _ _ A) as [Hc At]. pose proof (write_utf8_matches_source c Hc) as W.
+    rewrite c8_loop_S. cbn [length]. replace (i <? i + Z.of_nat (S (length t))) with true by lia.
+    cbn [b2z z2b Z.eqb negb]. rewrite (shows_head _ _ _ _ _ R).
+    replace (i + Z.of_nat (S (length t))) with (i + 1 + Z.of_nat (length t)) by lia.
+    cbn [length] in Hfm, Hfs.
+    destruct (write8_shape c Hc) as [(wc & Ew & Lw) | Ew]; rewrite Ew in W |- *; unfold write_ok in W; cbn [fst snd] in W.
+    + change (z2b (b2z (negb (ext_success =? ext_success)))) with false. cbv iota.
+      destruct (IH (out ++ wc) (i + 1) p a b fm fs At (shows_tail _ _ _ _ _ R) ltac:(lia) ltac:(lia)) as (e & ws & Es & Em).
+      exists e, (wc ++ ws). split.
+      * rewrite Es. rewrite <- app_assoc. reflexivity.
+      * intros d Hd. rewrite app_length in Hd. cbn [walk]. unfold c8_body at 1. cbn [rdu nth_error of_opt bind].
+        rewrite (W d) by lia. cbn [bind]. change (cerr_of_code (Z.to_N ext_success)) with CSuccess. cbn [is_error skipn bind].
+        rewrite Em by (cbn [fst]; lia). cbn [fst snd]. rewrite app_length, rev_map_app. do 3 f_equal. lia.
+    + change (z2b (b2z (negb (ext_out_of_range =? ext_success)))) with true. cbv iota. rewrite z2b_b2z, Hv.
+      change (cerr_of_code (Z.to_N ext_out_of_range)) with COutOfRange in W.
+      destruct (is_check m) eqn:Em.
+      * exists COutOfRange, []. split; [reflexivity|].
+        intros [free w] Hd. cbn [walk]. unfold c8_body at 1. cbn [rdu nth_error of_opt bind].
+        rewrite (W (free, w)) by (cbn; lia). cbn [bind is_error]. unfold on_error8. rewrite Em.
+        cbn [fst snd length map rev app bind]. rewrite Nat.sub_0_r. reflexivity.
+      * destruct (IH ((out ++ []) ++ subst8) (i + 1) p a b fm fs At (shows_tail _ _ _ _ _ R) ltac:(lia) ltac:(lia))
+          as (e & ws & Es & Emod).
+        exists e, (subst8 ++ ws). split.
+        -- rewrite Es. rewrite app_nil_r, <- app_assoc. reflexivity.
+        -- intros [free w] Hd. rewrite app_length, subst8_length in Hd. cbn [fst snd] in Hd.
+           cbn [walk]. unfold c8_body at 1. cbn [rdu nth_error of_opt bind].
+           rewrite (W (free, w)) by (cbn; lia). cbn [bind is_error fst snd length map rev app]. rewrite Nat.sub_0_r. unfold on_error8. rewrite Em.
+           rewrite (subst8_pushed free w) by lia. cbn [bind skipn].
+           rewrite Emod by (cbn [fst]; rewrite subst8_length; lia). cbn [fst snd].
+           rewrite app_length, rev_map_app. do 3 f_equal. lia.
+Qed.
+
+Theorem utf8_convert_from_utf32_matches_source l m fuel : all_lt 4294967296 l = true -> (length l < fuel)%nat ->
+  exists e ws, src_utf8_convert_from_utf32 fuel (arr32 l) (Z.of_nat (length l)) (mode_code m) = Some (Z.of_N (cerr_code e), ws) /\
+    forall d : dst, (length ws <= fst d)%nat ->
+      utf8_convert_from_utf32 d l m = Ok (e, ((fst d - length ws)%nat, rev (map byte_of ws) ++ snd d)).
+Proof.
+  intros A Hf. unfold src_utf8_convert_from_utf32, utf8_convert_from_utf32. cbv zeta.
+  assert (Hv : (mode_code m =? ext_check_validity) = is_check m) by (destruct m; reflexivity).
+  destruct (c8_loop_matches m (mode_code m) Hv l [] 0 (arr32 l) 0 (Z.of_nat (length l)) (S (length l)) fuel A (shows_arr32 l) ltac:(lia) Hf)
+    as (e & ws & Es & Em).
+  exists e, ws. split; [exact Es|]. intros d Hd. fold (c8_body m). exact (Em d Hd).
+Qed.
+
+Example convert32_utf8_example :
+  option_map (fun r => (fst r, map byte_of (snd r))) (src_utf8_convert_from_utf32 9 (arr32 [65; 8364; 1114112]%N) 3 ext_substitute_invalid)
+    = Some (0, [65; 0xE2; 0x82; 0xAC; 0xEF; 0xBF; 0xBD]%N) /\
+  utf8_convert_from_utf32 (7%nat, []) [65; 8364; 1114112]%N SubstituteInvalid = Ok (CSuccess, (0%nat, [0xBD; 0xBF; 0xEF; 0xAC; 0x82; 0xE2; 65]%N)).
+Proof. vm_compute. split; reflexivity. Qed.
 
 Example convert32_example :
   src_utf16_convert_from_utf32 9 (arr32 [65; 128512; 1114112; 66]%N) 4 ext_substitute_invalid = Some (0, [65; 55357; 56832; 65533; 66]) /\
